@@ -111,7 +111,9 @@ func parseProxyV2(br *bufio.Reader) (*ProxyInfo, error) {
 	if cmd == 0x0 {
 		return &ProxyInfo{Local: true}, nil
 	}
-	family := header[13] & 0x0f
+	// Byte 13 carries the address family in its high nibble (0x1 = AF_INET,
+	// 0x2 = AF_INET6) and the transport protocol in its low nibble.
+	family := header[13] >> 4
 	switch family {
 	case 0x1:
 		return parseProxyV2Inet(payload)
